@@ -1,6 +1,6 @@
 (* CheckSpacing: theorems for the patterns of W01 (trailing space), W14 (two spaces), W15 (space before tab) at ANY
    position of the statement, from the landing lemma. *)
-From NV Require Import Model.Base Model.RuleChecks Gen.RuleChecks Proofs.StrOrder Proofs.RuleChecksProofs Proofs.RuleChecksProofs2 Proofs.RuleChecksSpacing Proofs.RuleChecksSpacing3.
+From NV Require Import Model.Base Model.RuleChecks Gen.RuleChecks Proofs.StrOrder Proofs.RuleChecksProofs Proofs.RuleChecksProofs2 Proofs.RuleChecksSpacing Proofs.RuleChecksSpacing3 Proofs.SpacingTotal.
 From Coq Require Import Lia.
 Local Open Scope Z_scope.
 
@@ -118,4 +118,53 @@ Section Patterns.
             | right; unfold has_code; do 2 eexists; rewrite ?in_app_iff; cbn [In]; solve [auto 14]
             | right; destruct a'; [destruct (HA eq_refl) as [l [c Hin]]; exists l, c; rewrite ?in_app_iff; solve [auto 12]|discriminate] ].
   Qed.
+
+  (* ---- with CheckSpacing total on what the registry passes (Proofs/SpacingTotal.v), the same three without the hypothesis
+     that the check returned normally *)
+  Hypothesis Hscope : 0 <= scope.
+
+  Theorem check_spacing_trailing_space_total v h1 rest :
+    v_history v = h1 :: rest -> str_in h1 spacing_skipped = false ->
+    t_col ts <> 1 ->
+    truthy (checkl toks (i - 1) [s "LBRACE"; s "RBRACE"]) = false ->
+    truthy (check1 toks (skip_ws toks i) (s "NEWLINE")) = true ->
+    exists E v', check_spacing toks scope v = Ok (E, v') /\ In (s "SPC_BEFORE_NL", t_line ts, t_col ts) E.
+  Proof.
+    intros Hh Hs Hc Hb Hnl. destruct (check_spacing_total toks scope Hscope v) as [[E v'] R]; [rewrite Hh; discriminate|].
+    exists E, v'. split; [exact R|]. eapply check_spacing_trailing_space; eassumption.
+  Qed.
+
+  Theorem check_spacing_double_space_total v h1 rest :
+    v_history v = h1 :: rest -> str_in h1 spacing_skipped = false ->
+    t_col ts <> 1 -> truthy (check1 toks (i + 1) ty_space) = true ->
+    exists E v', check_spacing toks scope v = Ok (E, v') /\
+      (In (s "CONSECUTIVE_SPC", t_line ts, t_col ts) E \/ has_code (s "CONSECUTIVE_SPC") E).
+  Proof.
+    intros Hh Hs Hc Hn. destruct (check_spacing_total toks scope Hscope v) as [[E v'] R]; [rewrite Hh; discriminate|].
+    exists E, v'. split; [exact R|]. eapply check_spacing_double_space; eassumption.
+  Qed.
+
+  Theorem check_spacing_space_tab_total v h1 rest :
+    v_history v = h1 :: rest -> str_in h1 spacing_skipped = false ->
+    t_col ts <> 1 -> truthy (check1 toks (i + 1) (s "TAB")) = true ->
+    exists E v', check_spacing toks scope v = Ok (E, v') /\
+      (In (s "MIXED_SPACE_TAB", t_line ts, t_col ts) E \/ has_code (s "MIXED_SPACE_TAB") E).
+  Proof.
+    intros Hh Hs Hc Hn. destruct (check_spacing_total toks scope Hscope v) as [[E v'] R]; [rewrite Hh; discriminate|].
+    exists E, v'. split; [exact R|]. eapply check_spacing_space_tab; eassumption.
+  Qed.
 End Patterns.
+
+(* W05 on the first line of a statement, without the hypothesis that the check returned normally *)
+Theorem check_spacing_leading_space_total toks scope v h1 rest ts t1 :
+  0 <= scope -> v_history v = h1 :: rest -> str_in h1 spacing_skipped = false ->
+  peek toks 0 = Some ts -> t_type ts = ty_space -> t_col ts = 1 -> 0 < slice_len toks scope ->
+  peek toks (after_spaces toks scope) = Some t1 ->
+  exists E v', check_spacing toks scope v = Ok (E, v') /\
+    In ((if truthy (check1 toks (after_spaces toks scope + 1) (s "NEWLINE")) then s "SPACE_EMPTY_LINE" else s "SPACE_REPLACE_TAB"),
+        t_line t1, t_col t1) E.
+Proof.
+  intros Hsc Hh Hs H0 Hty Hc Hr H1. destruct (check_spacing_total toks scope Hsc v) as [[E v'] R]; [rewrite Hh; discriminate|].
+  exists E, v'. split; [exact R|]. eapply check_spacing_leading_space; eassumption.
+Qed.
+
